@@ -1,0 +1,34 @@
+package streams
+
+import (
+	"io"
+	"net"
+)
+
+// MuxStreamConnection wraps a logical stream of the connection multiplexer.
+//
+// The pinned multiplexer (xtaci/smux 1.5.14) signals "data arrived" and "peer finished" on two channels and
+// waits for them in one select; when the peer writes and closes right away both are ready and the select may pick
+// the end-of-stream first, so Read returns io.EOF while the data it already received is still buffered. A Read
+// that follows such an EOF hands the buffered data over (and a genuine end-of-stream is simply reported again),
+// so one retry after EOF restores "all data, then end-of-stream".
+type MuxStreamConnection struct {
+	net.Conn
+}
+
+func NewMuxStreamConnection(stream net.Conn) *MuxStreamConnection {
+	return &MuxStreamConnection{Conn: stream}
+}
+
+func (c *MuxStreamConnection) Read(p []byte) (int, error) {
+	n, err := c.Conn.Read(p)
+	if n == 0 && err == io.EOF {
+		return c.Conn.Read(p)
+	}
+	return n, err
+}
+
+// Unwrap returns the embedded net.Conn
+func (c *MuxStreamConnection) Unwrap() net.Conn {
+	return c.Conn
+}
